@@ -112,6 +112,12 @@ def run(chk: Check):
     for tag, prog, sources in c01.CORPUS:
         if tag in ("F17", "F20", "F25"):
             run_program(chk, da, prog, sources, None, True)
-    n = 8000 if chk.tier == "thorough" else 500
+    for _ in range(1500 if chk.tier == "thorough" else 200):
+        prog, sources, want = progs.misaligned_take(chk.rng)
+        run_program(chk, da, prog, sources, want, True)
+    for _ in range(400 if chk.tier == "thorough" else 40):
+        prog, sources, want = progs.diag_equal_counts(chk.rng)
+        run_program(chk, da, prog, sources, want, True)
+    n = 8000 if chk.tier == "thorough" else 800
     for i, (prog, sources, want) in enumerate(progs.gen_programs(chk.rng, n)):
         run_program(chk, da, prog, sources, want, optimize=(i % 3 != 0))
